@@ -552,6 +552,9 @@ class Engine:
         elif op.variant == "badcb":
             kwargs["teardown_callback"] = "not callable"
             expect_exc = TypeError
+        elif op.variant == "badcb0":
+            kwargs["teardown_callback"] = 0  # not callable either - and falsy
+            expect_exc = TypeError
         elif op.variant == "badtypes":
             args_types, expect_exc = [op.types[0], "str"], TypeError
         elif op.variant == "td":
